@@ -401,6 +401,11 @@ class Logix( Message_Router ):
                     attribute.parser.tag_type, (attribute.parser.tag_type,) ), \
                     "Tag type %d in request doesn't fit within Attribute type %d" % ( 
                         data[context].type, attribute.parser.tag_type )
+                # Each value must also be representable in the Attribute's type (eg. UINT 40000
+                # doesn't fit in an INT), or it could never be produced in a later read reply.
+                if attribute.parser.tag_type != STRUCT.tag_type:
+                    for value in data[context].data:
+                        attribute.parser.produce( value )
             else:
                 raise AssertionError( "Unhandled Service Reply" )
 
